@@ -407,6 +407,7 @@ def _intermediate_direction(chk, f, ret, comp):
 
 def r3_alignment(chk):
     prog = chk.prog
+    ens_best = (None, None)
     for spec in ("molli.chem.molecule:Molecule.align_to_ref_coords", f"{ENS}:ConformerEnsemble.optimal_rotation_to_ref_coords"):
         f = prog.func(spec)
         chk.analysed(f)
@@ -423,6 +424,8 @@ def r3_alignment(chk):
             best_m = [k for k, v in body.items() if v == rot][0] if ok else None
         chk.decide(ok, "C11.R3", f"{f.key}:best-rotation-and-rmsd-updated-together", f.where(gs[0] if gs else None), f"if {rm} < {best_r}: {best_r}, {best_m} = {rm}, {rot}",
                    "the smallest RMSD and the rotation kept for it are not updated together under one `<` test: the RMSD returned is not the one of the rotation applied")
+        if f.qualname.endswith("optimal_rotation_to_ref_coords"):
+            ens_best = (best_r, best_m)
         if f.qualname.endswith("Molecule.align_to_ref_coords"):
             from ..canon import Env
 
@@ -448,12 +451,26 @@ def r3_alignment(chk):
     chk.decide(ok, "C11.R3", f"{f.key}:one-fit-applied-and-reported", f.where(), "centre, (rmsds, matrices) = optimal rotation, rotate(matrices), return rmsds",
                "the ensemble alignment does not apply the matrices and return the RMSDs of one and the same optimal-rotation call after centring")
     orr = prog.func(f"{ENS}:ConformerEnsemble.optimal_rotation_to_ref_coords")
-    src = norm(orr.node)
-    ok = "rmsds.append(smallest_rmsd)" in src and "opt_rot_ms.append(optimal_rot_matrix)" in src
+    # per conformer (the loop over self): the kept RMSD and the kept matrix are appended, once each, after the search over the core mappings,
+    # to the two lists that are returned
+    from ..canon import Env
+
+    best_r, best_m = ens_best
     loops = [l for l in walk_no_nested(orr.node) if isinstance(l, ast.For) and norm(l.iter) == "self"]
-    ok = ok and len(loops) == 1
+    ok = len(loops) == 1 and best_r is not None and best_m is not None
+    if ok:
+        oenv = Env(orr.node)
+        apps = [s.value for s in loops[0].body if isinstance(s, ast.Expr) and isinstance(s.value, ast.Call) and isinstance(s.value.func, ast.Attribute) and s.value.func.attr == "append" and len(s.value.args) == 1]
+        vals = [norm(oenv.expand(a.args[0], keep={best_r, best_m}, at=a)) for a in apps]
+        lists = [norm(a.func.value) for a in apps]
+        rets = [r for r in walk_no_nested(orr.node) if isinstance(r, ast.Return) and r.value is not None]
+        ok = sorted(vals) == sorted([best_r, best_m]) and len(rets) == 1 and isinstance(rets[0].value, ast.Tuple) and len(rets[0].value.elts) == 2
+        if ok:
+            r0, r1 = rets[0].value.elts
+            ok = norm(r0) == lists[vals.index(best_r)] and lists[vals.index(best_m)] in {n for n in names_in(r1)}
     chk.decide(ok, "C11.R3", f"{orr.key}:one-entry-per-conformer-in-order", orr.where(), "per conformer, in order: append(best rmsd), append(best matrix)",
-               "optimal_rotation_to_ref_coords does not return one (rmsd, matrix) pair per conformer in ensemble order")
+               "optimal_rotation_to_ref_coords does not return one (rmsd, matrix) pair per conformer in ensemble order" +
+               (f": per conformer it appends {vals if 'vals' in dir() else '?'}, the kept pair is ({best_r}, {best_m}) - the matrix applied is not the one whose RMSD is reported" if best_r else ""))
 
 
 def r4_views(chk):
